@@ -40,6 +40,20 @@ def phoenixModel (id : Nat) : Option String :=
     else some (v ++ " " ++ va ++ " " ++ ac)
   | _, _ => none
 
+/-- the product families of each id block (the type values of veproduct/type.go): 0x02xx the BMV-70x monitors;
+    0xA38x the smart monitors — BMV Smart and SmartShunt; 0x03xx BlueSolar; 0xA0xx BlueSolar / SmartSolar MPPT;
+    0xA1xx their VE.Can variants; 0xA2xx Phoenix Inverter (Smart); 0xA34x Phoenix Smart IP43 Charger -/
+def rangeTypes (id : Nat) : List Nat :=
+  let hi := id / 256
+  if hi = 0x02 then [1]
+  else if 0xA380 ≤ id ∧ id ≤ 0xA38F then [2, 10]
+  else if hi = 0x03 then [3]
+  else if hi = 0xA0 then [3, 4]
+  else if hi = 0xA1 then [5, 6]
+  else if hi = 0xA2 then [7, 8]
+  else if 0xA340 ≤ id ∧ id ≤ 0xA34F then [9]
+  else []
+
 def categoryOf (t : TypeRow) : Option Nat :=
   match t.bmv, t.solar, t.inverter with
   | true, false, false => some 1
@@ -55,7 +69,7 @@ def rowOk (types : List TypeRow) (r : ProductRow) : Bool :=
   -- display string
   t.name != "" && r.str == t.name ++ " " ++ r.model && r.mapVal == r.str &&
   -- exactly one category, the one of the id range
-  (categoryOf t == some (rangeCategory r.id)) &&
+  (categoryOf t == some (rangeCategory r.id) && (rangeTypes r.id).contains r.type) &&
   -- panel numbers
   (if t.solar then designation r.model == some (r.mpv, r.mpc) else r.mpv == -1 && r.mpc == -1) &&
   -- Phoenix inverter model strings
